@@ -52,7 +52,7 @@ func init() {
 			"encoding/binary.LittleEndian rendering; BytesToX(XAsBytes(s)) equals s bit for bit; for a random byte buffer b taken as an (often unaligned) sub-slice of a larger buffer, BytesToX(b) equals the " +
 			"little-endian reading and XAsBytes(BytesToX(b)) equals b; the iterator (marshaler) hands OnArray exactly XAsBytes(s) with the right type and count; the builder (untyped and []T template) turns an OnArray " +
 			"event carrying XAsBytes(s) into a slice equal to s bit for bit, and so does the same data delivered as a chunked array (random chunks and data events, from a producer reusing one buffer) " +
-			"and a multi-chunk CBE document of it decoded by ce.UnmarshalFromCBEDocument / ce.UnmarshalCBE(slow reader) into []T and interface{}; CBE (and for NaN-free data CTE) encoder->decoder carries XAsBytes(s) unchanged and ce.MarshalToCBEDocument(s) decodes to the same bytes. " +
+			"and a multi-chunk CBE document of it decoded by ce.UnmarshalFromCBEDocument / ce.UnmarshalCBE(slow reader) into []T and interface{}, and (NaN-free, <= 300 elements) through the CTE encoder and decoder; CBE (and for NaN-free data CTE) encoder->decoder carries XAsBytes(s) unchanged and ce.MarshalToCBEDocument(s) decodes to the same bytes. " +
 			"The whole case list runs under three binaries: normal, -tags purego, and -race (checkptr). Non-trivial = length >= 2 with >= 2 distinct element values; distinct = (type, bytes).",
 		Assumptions: []string{"host byte order is whatever the machine running the check has (little-endian here); the big-endian code paths of internal/arrays are not executed",
 			"byte buffers whose length is not a multiple of the element size are not asserted (the property is silent)",
@@ -544,6 +544,22 @@ func c26Run[T any](c *fw.Ctx, n int, k c26Kind[T]) {
 				}
 			}
 			return true
+		}
+		if n <= 300 && !hasNaN {
+			// the text encoder reassembles elements that a data event cut in two
+			tdoc, fi, pv := encodeWithRules(ce.NewCTEEncoder(cfg), cstream, cfg)
+			if fi >= 0 {
+				fail("cte-encode-panic:chunked", map[string]interface{}{"panic": ev.PanicString(pv), "stream": short(ev.LogString(cstream), 600)})
+			} else {
+				res := decodeDoc(ce.NewCTEDecoder(cfg), tdoc, cfg, true)
+				at, cnt, data, ok := c26ArrayBytes(res.Log)
+				if res.Panic != nil || res.Err != nil || !ok || at != k.at || cnt != uint64(n) || !c26SameElems(k, data, bits) {
+					fail("cte-chunked-differs", map[string]interface{}{"err": errStr(res.Err), "panic": ev.PanicString(res.Panic), "cte": short(string(tdoc), 600),
+						"stream": short(ev.LogString(cstream), 600), "log": short(ev.LogString(res.Log), 400)})
+				} else {
+					c.Inc("cte_chunked_compared." + vn)
+				}
+			}
 		}
 		cdoc, fi, pv := encodeWithRules(ce.NewCBEEncoder(cfg), cstream, cfg)
 		if fi >= 0 {
